@@ -85,7 +85,7 @@ theorem loadExc_record (s : SendCfg) (r : RecvCfg) (env : Env) (e : ExcRec) (cls
   rw [loadExc_eq_core]
   unfold recordPayload loadCore
   simp only [isStopMarker_tuple, Bool.false_eq_true, ↓reduceIte, unpack4, iter, unpack2, loadRecord, hashable_all,
-    Bool.not_true, Bool.and_false, hres]
+    Bool.not_true, Bool.and_false, hres, moduleCodeEvents_nil, List.append_nil]
 
 theorem instantiate_ok (env : Env) (evs : List Event) (cls : ClsRef) (a b t : Val) (o : ExcObj)
     (h : build env cls a b t = .ok o) :
@@ -115,7 +115,7 @@ theorem resolveClass_builtin (r : RecvCfg) (env : Env) (n : Str) (nn : Bool) (hk
   unfold resolveClass lookupClass
   cases hi : r.instCustom
   · simp [isBuiltinsName, getattrKind, h3]
-  · simp [inModules, h1, getattrKind, h2]
+  · simp [inModules, h1, moduleLookup_str, h2]
 
 /-- the module route is open: custom instantiation allowed and the module is (or has just been) loaded -/
 def moduleRoute (r : RecvCfg) (env : Env) (m : Str) : Bool := r.instCustom && inModules r env (.str m)
@@ -139,10 +139,10 @@ theorem resolveClass_custom (r : RecvCfg) (env : Env) (m c : Str) (hm : m ≠ Ge
     · refine ⟨false, ?_, by simp⟩
       simp [hgen]
     · cases hk : env.modAttr (.str m) c with
-      | excClass nn => exact ⟨nn, by simp [getattrKind, hk, ObjKind.isExc], by intro h; simp [ObjKind.isExc, h]⟩
-      | missing => exact ⟨false, by simp [getattrKind, hk, ObjKind.isExc, hgen], by simp⟩
-      | notType => exact ⟨false, by simp [getattrKind, hk, ObjKind.isExc, hgen], by simp⟩
-      | typeNotExc => exact ⟨false, by simp [getattrKind, hk, ObjKind.isExc, hgen], by simp⟩
+      | excClass nn => exact ⟨nn, by simp [moduleLookup_str, hk, ObjKind.isExc], by intro h; simp [ObjKind.isExc, h]⟩
+      | missing => exact ⟨false, by simp [moduleLookup_str, hk, ObjKind.isExc, hgen], by simp⟩
+      | notType => exact ⟨false, by simp [moduleLookup_str, hk, ObjKind.isExc, hgen], by simp⟩
+      | typeNotExc => exact ⟨false, by simp [moduleLookup_str, hk, ObjKind.isExc, hgen], by simp⟩
 
 /-! ### every payload -/
 
@@ -151,6 +151,7 @@ def EvOK (r : RecvCfg) (env : Env) : Event → Prop
   | .importAttempt m => r.importCustom = true ∧ env.loaded m = false
   | .new _ => True
   | .init _ => False
+  | .moduleCode _ _ => False
 
 theorem importEvents_ok (r : RecvCfg) (env : Env) (m : Val) : ∀ ev ∈ importEvents r env m, EvOK r env ev := by
   intro ev hev
@@ -177,8 +178,9 @@ theorem loadRecord_events (r : RecvCfg) (env : Env) (m c a b t : Val) :
   split at hev
   · cases hev
   · split at hev
-    · exact importEvents_ok r env m ev hev
-    · rw [instantiate_events] at hev
+    · rw [moduleCodeEvents_nil, List.append_nil] at hev
+      exact importEvents_ok r env m ev hev
+    · rw [instantiate_events, moduleCodeEvents_nil, List.append_nil] at hev
       rcases List.mem_append.mp hev with h | h
       · exact importEvents_ok r env m ev h
       · rcases List.mem_singleton.mp h with rfl
@@ -240,8 +242,8 @@ theorem resolveClass_allowed (r : RecvCfg) (env : Env) (m c : Val) (cls : ClsRef
     · simp only [hi, ↓reduceIte] at hl
       split at hl
       · rename_i him
-        obtain ⟨_, hk⟩ := getattrKind_ok _ _ _ _ hl
-        exact ⟨nn, by simp [hi, him, ← hk]⟩
+        have hk := moduleLookup_exc env m c _ _ hl
+        exact ⟨nn, by simp [hi, him, hk]⟩
       · cases hl
   · obtain ⟨fn, rfl⟩ := genericClass_generic env m c cls nn h
     trivial
@@ -368,7 +370,7 @@ theorem loadExc_fallback (r : RecvCfg) (env : Env) (e : ExcRec) (cls : ClsRef)
   rw [loadExc_eq_core]
   unfold fallbackPayload loadCore
   simp only [isStopMarker_tuple, Bool.false_eq_true, ↓reduceIte, unpack4, iter, unpack2, loadRecord, hashable_all,
-    Bool.not_true, Bool.and_false, hres]
+    Bool.not_true, Bool.and_false, hres, moduleCodeEvents_nil, List.append_nil]
   simp [instantiate, instantiationEvent_eq, build, iter, assignAll, remoteVersion, ExcObj.get, lookupAttr, hv, fallbackObj]
 
 /-- a class name `builtins` does not hold (here) as an exception class — a built-in class of the SENDER's interpreter that
@@ -393,8 +395,8 @@ theorem resolveClass_builtin_unknown (r : RecvCfg) (env : Env) (n : Str)
     · simp [hgen]
     · cases hk : env.modAttr (.str Gen.Vinegar.exceptionsModule) n with
       | excClass nn => simp [hk, ObjKind.isExc] at hm
-      | missing => simp [getattrKind, hk, hgen]
-      | notType => simp [getattrKind, hk, hgen]
-      | typeNotExc => simp [getattrKind, hk, hgen]
+      | missing => simp [moduleLookup_str, hk, hgen]
+      | notType => simp [moduleLookup_str, hk, hgen]
+      | typeNotExc => simp [moduleLookup_str, hk, hgen]
 
 end Rpyc.Vinegar
